@@ -2,7 +2,10 @@
 
 package webp
 
-import "github.com/deepteams/webp/internal/lossy"
+import (
+	"github.com/deepteams/webp/internal/dsp"
+	"github.com/deepteams/webp/internal/lossy"
+)
 
 // Add-only re-exports for /verif (properties C04, C06).
 
@@ -12,4 +15,27 @@ func VerifLossyDecodeFrame(data []byte, unfiltered bool) (w, h int, y, u, v []by
 	return lossy.VerifDecodeFrame(data, unfiltered)
 }
 
-func VerifLossyParseHeaders(data []byte) (VerifFrameInfo, error) { return lossy.VerifParseHeaders(data) }
+func VerifLossyParseHeaders(data []byte) (VerifFrameInfo, error) {
+	return lossy.VerifParseHeaders(data)
+}
+
+func VerifLossyTables() (coeffs0, coeffsUpdate [4][8][3][11]uint8, bmodes [10][10][9]uint8) {
+	return lossy.VerifTables()
+}
+
+// VerifWithPortableDecoderKernels runs f with the pure-Go decoder kernels.
+func VerifWithPortableDecoderKernels(f func()) { dsp.VerifWithPortableDecoderKernels(f) }
+
+func VerifDspTransformOne(in []int16, dst []byte)           { dsp.VerifTransformOne(in, dst) }
+func VerifDspTransformDC(in []int16, dst []byte)            { dsp.VerifTransformDC(in, dst) }
+func VerifDspTransformAC3(in []int16, dst []byte)           { dsp.VerifTransformAC3(in, dst) }
+func VerifDspTransformWHT(in []int16, out []int16)          { dsp.VerifTransformWHT(in, out) }
+func VerifDspTransformDispatched(in []int16, dst []byte)    { dsp.Transform(in, dst, false) }
+func VerifDspTransformWHTDispatched(in, out []int16)        { dsp.TransformWHT(in, out) }
+func VerifDspPredLuma4(mode int, buf []byte, off int)       { dsp.VerifPredLuma4(mode, buf, off) }
+func VerifDspPredLuma4Direct(mode int, buf []byte, off int) { dsp.PredLuma4Direct(mode, buf, off) }
+func VerifDspPredLuma16(mode int, buf []byte, off int)      { dsp.PredLuma16[mode](buf, off) }
+func VerifDspPredChroma8(mode int, buf []byte, off int)     { dsp.PredChroma8[mode](buf, off) }
+func VerifDspClipTables() (s1, s2 []int8, c1, a0 []uint8)   { return dsp.VerifClipTables() }
+
+const VerifDspBPS = dsp.BPS
